@@ -634,6 +634,19 @@ def rule_dispatch(ctx: Ctx) -> RuleReport:
             rep.ok({"signature": t, "length": length})
         else:
             rep.fail(Finding("C10-DISPATCH", ARCH, "MAGIC_SIGNATURES", f"{magic!r}, {t}, {length}", "declared signature length differs from the signature: the prefix comparison can never / always match"))
+    # signatures are the formats' own magic numbers (a changed byte detects another / no format)
+    SPEC = {"zip": {b"PK\x03\x04", b"PK\x05\x06", b"PK\x07\x08"}, "7z": {b"7z\xbc\xaf\x27\x1c"}, "tar.gz": {b"\x1f\x8b"}, "tar.bz2": {b"BZh"}, "tar.xz": {b"\xfd7zXZ\x00"}}
+    for (magic, t, _l) in sigs:
+        if t in SPEC and len(magic) >= 2 and any(m.startswith(magic) for m in SPEC[t]):  # a prefix of the magic number is still that format's signature
+            rep.ok({"signature": t, "magic": magic.hex()})
+        elif t in SPEC:
+            rep.fail(Finding("C10-DISPATCH", ARCH, "MAGIC_SIGNATURES", f"{t}: {magic!r}", f"the signature {magic!r} registered for {t} is not that format's magic number ({', '.join(sorted(repr(x) for x in SPEC[t]))})"))
+    # uncompressed TAR: 'ustar' at offset 257 — POSIX writes 'ustar\\0' + '00', GNU tar 'ustar  \\0': only the five letters are common
+    tm, to = ctx.const(ARCH, "TAR_MAGIC"), ctx.const(ARCH, "TAR_MAGIC_OFFSET")
+    if tm == b"ustar" and to == 257:
+        rep.ok({"signature": "tar", "magic": "ustar @257 (prefix shared by POSIX and GNU headers)"})
+    else:
+        rep.fail(Finding("C10-DISPATCH", ARCH, "TAR_MAGIC", f"{tm!r} @ {to!r}", f"uncompressed TAR is recognised by {tm!r} at offset {to!r}; the magic field is 'ustar\\0' in POSIX/pax headers but 'ustar  \\0' in GNU tar's default format, so anything longer than the five letters b'ustar' at offset 257 rejects one of them"))
     ra = ctx.p.func(ARCH, "read_archive")
     handled = set()
     # the local that holds the detected type: assigned from the detector call
